@@ -314,6 +314,16 @@ class BuiltinMixin:
         if isinstance(v, FloatV):
             # int(x) truncates toward zero
             return [Ev(st, IntV(z3.If(v.t >= 0, z3.ToInt(v.t), -z3.ToInt(-v.t))))]
+        if isinstance(v, OpaqueV) and len(args) == 1:
+            # int(x) of a caller-supplied value: its integer value if it has one, else a TypeError / ValueError
+            ok = z3.Function("py_has_int_value", Py, z3.BoolSort())(v.t)
+            out = []
+            for b, t in self.branch(st, ok):
+                if t:
+                    out.append(Ev(b, IntV(z3.Function("py_int_value", Py, z3.IntSort())(v.t))))
+                else:
+                    out.append(self.raise_(b, "TypeError", "int() argument must be a string or a number"))
+            return out
         raise OutOfReach("int() of %s" % v.kind)
 
     def bi_float(self, st, args, kwargs, fx):
